@@ -195,4 +195,19 @@ theorem C15_resolution (spacing res : Rat) (hr : 0 < res) (fuel : Nat) (hf : spa
     rw [lt_div_iff₀ hr] at this
     linarith
 
+
+/-- non-vacuity: a cube of side 8 at the origin and a box that cuts it meet the hypotheses of `C15_child_inside`; a child
+    that overlaps the box exists -/
+example : let g : Geo := ⟨0, 0, 0, 8⟩
+    let b : Box := ⟨some 1, some 3, some 1, some 3, none, none⟩
+    (0 : Rat) ≤ g.side ∧ ovKey g b (child rootKey 0) = true := by
+  refine ⟨by decide +kernel, by decide +kernel⟩
+
+/-- non-vacuity of `C15_resolution`: spacing 8 and resolution 1 need levels 0..3 -/
+example : (8 : Rat) / 1 ≤ (2 : Rat) ^ 80 ∧ levelMax 8 1 80 = 4 := by
+  refine ⟨by decide +kernel, by decide +kernel⟩
+
+/-- non-vacuity of the grid theorems: a point strictly inside a box on a 0.25 grid -/
+example : keepAxis (1 / 4) 0 (some 1) (some 3) 6 = true := by decide +kernel
+
 end LasModel.Props.C15
